@@ -18,13 +18,14 @@ from concurrent.futures import ThreadPoolExecutor
 
 from .. import common, tlc
 
-INV = ["TypeOK", "DirExact", "DiskIsWant", "LoadReturnsLast", "LoadNewReturnsLast", "LoadSibReturnsLast", "MergeSeesPrevious", "DeleteWorks", "MemIsDisk"]
+INV = ["TypeOK", "DirExact", "DiskIsWant", "LoadReturnsLast", "LoadNewReturnsLast", "LoadSibReturnsLast", "DecoyUntouched", "DecoyNeverLoaded", "MergeSeesPrevious", "DeleteWorks", "MemIsDisk"]
 RTINV = ["RtIdentity", "RtLazyIsEager", "RtDir", "RtNoDeadlock"]
 ALLOPS = ["Save", "Load", "LoadNew", "SaveMerge", "HarvSame", "HarvFresh", "Delete"]
 SITES = ["save", "load", "loadNewTest", "mergeTest", "mergeLoad", "harvTest", "harvLoad", "harvRemove", "harvSave", "delete"]
 HARV_SITES = ["harvTest", "harvLoad", "harvRemove", "harvSave"]
 EXTS = ["", ".h5", ".dmp"]
 DOTTED = ".5"      # the logical name 'data_T0.5' (a dot, no engine extension) with the sibling 'data_T0.25' next to it
+DECOY_OPS = ["Save", "Load", "LoadNew", "SaveMerge", "HarvFresh", "Delete"]
 DOTTED_OPS = ["Save", "Load", "LoadNew", "SaveMerge", "HarvFresh", "Delete", "SaveSib", "LoadSib"]
 ENGINES = ["h5netcdf", "joblib"]
 POL = {"none": None, "true": True, "false": False}
@@ -53,17 +54,20 @@ def _set(x):
     return set(x) if x else tlc.Raw("{}")
 
 
-def run_naming(ext, eng, maxlen, pols=("none",), raw=(), deff=(), emit=False, tag="", namerule="append", ctor=None, ctorsites=(), **kw):
+def run_naming(ext, eng, maxlen, pols=("none",), raw=(), deff=(), emit=False, tag="", namerule="append", ctor=None, ctorsites=(),
+               decoy="none", bare=(), **kw):
     consts = dict(NameExt=ext, NameRule=namerule, Engine=eng, CtorEngine=ctor or eng, CtorEngSites=_set(ctorsites),
                   MaxLen=maxlen, Policies=_set(pols),
-                  OpsOn=_set(DOTTED_OPS if ext == DOTTED else ALLOPS),
+                  Decoy=decoy, BareIfExistsSites=_set(bare),
+                  OpsOn=_set(DECOY_OPS if decoy != "none" else DOTTED_OPS if ext == DOTTED else ALLOPS),
                   RawSites=_set(raw), DefEngSites=_set(deff), RtRule="ok")
     tail = "".join("INVARIANT %s\n" % i for i in INV) + ("INVARIANT EmitCase\n" if emit else "") + "CHECK_DEADLOCK FALSE\n"
-    return _tlc("DsStore", consts, tail, name="MC_DsStore_%s%s_%s%s" % (eng, ext.replace(".", "_"), tag, "_ctor" if ctor else ""), **kw)
+    return _tlc("DsStore", consts, tail, name="MC_DsStore_%s%s_%s%s" % (eng, ext.replace(".", "_"), tag, ("_ctor" if ctor else "") + ("_" + decoy if decoy != "none" else "")), **kw)
 
 
 def run_rt(ext, eng, rule="ok", emit=False, **kw):
-    consts = dict(NameExt=ext, NameRule="append", Engine=eng, CtorEngine=eng, CtorEngSites=_set([]), MaxLen=0, Policies=_set(["none"]), OpsOn=_set([]),
+    consts = dict(NameExt=ext, NameRule="append", Engine=eng, CtorEngine=eng, CtorEngSites=_set([]), Decoy="none",
+                  BareIfExistsSites=_set([]), MaxLen=0, Policies=_set(["none"]), OpsOn=_set([]),
                   RawSites=_set([]), DefEngSites=_set([]), RtRule=rule)
     tail = "INIT RtInit\nNEXT RtNext\n" + "".join("INVARIANT %s\n" % i for i in RTINV) \
         + ("INVARIANT RtEmit\n" if emit else "") + "CHECK_DEADLOCK FALSE\n"
@@ -83,6 +87,8 @@ def raw_read(path):
     import joblib
     import numpy as np
     import xarray as xr
+    if os.path.isdir(path):
+        return "dir", {}
     with open(path, "rb") as fh:
         sig = fh.read(8)
     if sig == b"\x89HDF\r\n\x1a\n":
@@ -123,7 +129,16 @@ def check_hist(c):
     os.chdir(td)
     h = None
     runner = xyz.Runner(lambda x: 10.0 * x + 1.0, var_names="v")
+    decoy = c.get("decoy", "none")
     try:
+        # an unrelated entry called exactly like the bare name: a folder, or an older dataset (piece 99) that was
+        # saved under a name with an explicit extension and then renamed
+        if decoy == "dir":
+            os.mkdir(name)
+        elif decoy == "file":
+            old = "older" + (".h5" if eng == "h5netcdf" else ".dmp")
+            xyz.save_ds(piece_ds(99), old, engine=eng)
+            os.rename(old, name)
         for n, st in enumerate(c["hist"]):
             op = st["op"]
             got_st, got_val, exc = "ok", None, None
@@ -133,7 +148,11 @@ def check_hist(c):
                 if op == "Save":
                     xyz.save_ds(piece_ds(st["p"]), name, engine=eng)
                 elif op == "Load":
-                    got_val = pieces_of(xyz.load_ds(name, engine=eng))
+                    lds = xyz.load_ds(name, engine=eng, chunks=(1 if st.get("ch") == "int" else None))
+                    try:
+                        got_val = pieces_of(lds)
+                    finally:
+                        lds.close()
                 elif op == "SaveSib":
                     xyz.save_ds(piece_ds(st["p"]), sib, engine=eng)
                 elif op == "LoadSib":
@@ -165,7 +184,9 @@ def check_hist(c):
                 n + 1, op, "" if st["pol"] == "none" else ", overwrite=%s" % POL[st["pol"]],
                 [s["op"] for s in c["hist"]], name, (" (sibling %r)" % sib) if ext == DOTTED else "",
                 eng if ctor == eng else "%s given per call (Harvester constructed with %s)" % (eng, ctor))
-            key = dict(part="naming", op=op, percall=(ctor != eng), hasext=ext in (".h5", ".dmp"), dotted=(ext == DOTTED), engine=eng)
+            if decoy != "none":
+                where += ", next to %s called %r" % ("a folder" if decoy == "dir" else "an older dataset file (piece 99)", name)
+            key = dict(part="naming", op=op, percall=(ctor != eng), decoy=decoy, hasext=ext in (".h5", ".dmp"), dotted=(ext == DOTTED), engine=eng)
             want_st = st["st"] if st["st"] in ("ok", "blank") else "raises"
             if got_st != want_st:
                 if got_st == "blank":
@@ -420,6 +441,8 @@ def run(rep):
         "dtype widening on disk, str -> object dtype, list attributes read back as arrays are notes, not violations, "
         "as long as values are equal",
         "after Delete the Harvester object is dropped (a new one is created by the next harvest step)",
+        "the decoy entry (folder / older dataset file named exactly like the extension-less name) is present from the start of "
+        "a history and only for names without an engine extension; those histories use Save/Load/LoadNew/SaveMerge/HarvFresh/Delete",
     ]
     if not thorough:
         rep.assumptions.append("quick tier: round-trip configurations are a seeded sample of the emitted set (TLC enumerates all)")
@@ -442,6 +465,14 @@ def run(rep):
             jobs[("C", "", eng)] = ex.submit(run_naming, "", eng, len_a - 1, ("none",), emit=True, tag="C", ctor=ctor,
                                              workers=1, coverage=True)
         jobs[("ctorsites", "all")] = ex.submit(run_naming, "", "joblib", 3, ctor="h5netcdf", ctorsites=HARV_SITES, tag="ctorsites", workers=1)
+        # an unrelated folder / older dataset file called exactly like the extension-less name sits in the directory
+        dcombos = [(e, g, d) for e in ("", DOTTED) for g in ENGINES for d in ("dir", "file")]
+        if not thorough:
+            dcombos = [("", "h5netcdf", "file"), ("", "joblib", "dir"), (DOTTED, "joblib", "file")]
+        for e, g, d in dcombos:
+            jobs[("D" + d, e, g)] = ex.submit(run_naming, e, g, len_a - 1, ("none",), emit=True, tag="D", decoy=d,
+                                              workers=1, coverage=True)
+        jobs[("bare", "load")] = ex.submit(run_naming, "", "joblib", 3, decoy="file", bare=["load"], tag="bareload", workers=1)
         jobs[("namerule", "splitext")] = ex.submit(run_naming, DOTTED, "h5netcdf", 3, namerule="splitext", tag="splitext", workers=1)
         # deviating implementations the invariants must reject
         jobs[("pinned", "", "h5netcdf")] = ex.submit(run_naming, "", "h5netcdf", 3, raw=["mergeTest", "harvTest", "harvRemove"],
@@ -455,7 +486,7 @@ def run(rep):
             jobs[("rtrule", rule)] = ex.submit(run_rt, "", eng, rule=rule, workers=1)
         results = {k: f.result() for k, f in jobs.items()}
     for k, r in results.items():
-        if k[0] in ("pinned", "rtrule", "namerule", "ctorsites") or (k[0] == "site" and k[1] != "harvRemove"):
+        if k[0] in ("pinned", "rtrule", "namerule", "ctorsites", "bare") or (k[0] == "site" and k[1] != "harvRemove"):
             if r.violated is None:
                 raise tlc.TLCError("self-test failed: deviating model %r is not rejected by the invariants" % (k,))
     rep.note("self-test: TLC rejects the pinned naming (%s for 'data'/h5netcdf, %s for 'data.dmp'/joblib), every single site "
@@ -467,14 +498,17 @@ def run(rep):
     rep.note("self-test: TLC rejects NameRule='splitext' (unknown suffix replaced by the extension) for 'data_T0.5': %s; "
              "and Harvester sites using the constructor's engine instead of the call's: %s"
              % (results[("namerule", "splitext")].violated, results[("ctorsites", "all")].violated))
+    rep.note("self-test: TLC rejects load_ds using the bare name when an older dataset file of that name exists: %s"
+             % results[("bare", "load")].violated)
     hists, rts = [], []
-    for (kind, ext, eng), r in [(k, r) for k, r in results.items() if k[0] in ("A", "B", "C", "rt")]:
-        rep.add_tlc("DsStore %s name=%s engine=%s" % ({"A": "naming", "B": "naming+policies", "C": "naming, engine per call", "rt": "round-trip"}[kind],
+    for (kind, ext, eng), r in [(k, r) for k, r in results.items() if k[0] in ("A", "B", "C", "Ddir", "Dfile", "rt")]:
+        rep.add_tlc("DsStore %s name=%s engine=%s" % ({"A": "naming", "B": "naming+policies", "C": "naming, engine per call", "Ddir": "naming, folder of the bare name present",
+                                                        "Dfile": "naming, older file of the bare name present", "rt": "round-trip"}[kind],
                                                        "data_T0.5" if ext == DOTTED else "data" + ext, eng), r)
         if r.violated:
             raise tlc.TLCError("DsStore.tla: invariant %s violated (%s, data%s, %s)" % (r.violated, kind, ext, eng))
         need = ["RtSave", "RtLoadEager", "RtLoadLazy"] if kind == "rt" else ["Save", "Load", "LoadNew", "SaveMerge", "HarvSync", "Delete"]
-        if ext == DOTTED:
+        if ext == DOTTED and not kind.startswith("D"):
             need += ["SaveSib", "LoadSib"]
         for act in need:
             if r.coverage.get(act, (0, 0))[1] == 0:
@@ -513,7 +547,7 @@ def run(rep):
         if "hist" in c:
             ops = [s["op"] for s in c["hist"]]
             nontrivial = any(o in ("SaveMerge", "HarvFresh", "HarvSame", "Delete") for o in ops[1:])
-            rep.add_case(["hist", c["ext"], c["engine"], c.get("ctor"), [(s["op"], s["pol"]) for s in c["hist"]]], nontrivial=nontrivial,
+            rep.add_case(["hist", c["ext"], c["engine"], c.get("ctor"), c.get("decoy"), [(s["op"], s["pol"]) for s in c["hist"]]], nontrivial=nontrivial,
                          sample=c if (len(rep.samples) < 2 and nontrivial) else None)
         else:
             rep.add_case(["rt", c["ext"], c["engine"], c["cfg"]], sample=c if len(rep.samples) < 4 else None)
